@@ -26,7 +26,7 @@ RULE = (
 ASSUMPTIONS = [
     "Reference predicates are written from the property text: every(n,start,end)(v) <=> start<=v<end and (v-start)%n==0; between(a,b)(v) <=> a<=v<b.",
     "every(n) is only evaluated for n != 0 (n == 0 has no meaning in the statement).",
-    "throttle has no arithmetic meaning in the statement; its reference is a fresh instance replayed over the unconstrained stream (checks the iff plumbing only).",
+    "throttle has no arithmetic meaning in the statement; its reference is a small model written in the harness (RefThrottle: first value accepted, repeats of the last accepted value pass, otherwise the value must reach a trigger that advances by one period) replayed over the unconstrained stream, so both the iff plumbing and the stateful predicate of the pinned commit are compared.",
     "Part B compares two runs of the same deterministic generated program (constrained vs unconstrained selector).",
     "Total (focus-free) selectors: check_captures applies to all accumulated values of a constrained capture; the reference requires every accumulated value to satisfy the predicate.",
 ]
@@ -444,7 +444,7 @@ def part_b(spec, res):
             n, m = rnd.randint(3, 8), rnd.randint(1, 3)
             _, cev = run_probe(ns, csel, n, m, False)
             _, uev = run_probe(ns, usel, n, m, False)
-            th = tools.throttle(period)
+            th = RefThrottle(period)
             exp = [ev for ev in uev if all(th(x) for x in ev["i"])]
             res.deciding += 1
             res.evaluations += 1
@@ -452,6 +452,26 @@ def part_b(spec, res):
                 res.violation({"part": "B", "src": src, "csel": csel, "usel": usel, "n": n, "m": m, "total": False, "conds": []},
                               {"throttle": period, "expected": exp[:6], "got": cev[:6]})
         del mod
+
+
+class RefThrottle:
+    """Harness-side model of the stateful rate predicate (anchor: throttle.current / trigger): the
+    first value seen is accepted and anchors a trigger `period` above it; afterwards a value passes
+    iff it equals the most recently accepted value (a constrained outer variable keeps its value
+    over many events) or reaches the trigger, which then moves up by one period."""
+
+    def __init__(self, period):
+        self.period, self.current, self.trigger = period, None, None
+
+    def __call__(self, v):
+        if self.current is None:
+            self.current, self.trigger = v, v + self.period
+        if v == self.current:
+            return True
+        if v >= self.trigger:
+            self.current, self.trigger = v, self.trigger + self.period
+            return True
+        return False
 
 
 def plan(tier, seed, known):
